@@ -251,8 +251,11 @@ func (s State) BlockInterval() time.Duration {
 
 // BlockReward returns the reward for mining a child block.
 func (s State) BlockReward() types.Currency {
-	r, underflow := s.Network.InitialCoinbase.SubWithUnderflow(types.Siacoins(uint32(s.childHeight())))
-	if underflow || r.Cmp(s.Network.MinimumCoinbase) < 0 {
+	// the reward decreases by one siacoin per block; the height is not
+	// truncated, so the reward never rises again once it is at the minimum
+	dec, overflow := types.HastingsPerSiacoin.Mul64WithOverflow(s.childHeight())
+	r, underflow := s.Network.InitialCoinbase.SubWithUnderflow(dec)
+	if overflow || underflow || r.Cmp(s.Network.MinimumCoinbase) < 0 {
 		return s.Network.MinimumCoinbase
 	}
 	return r
